@@ -312,7 +312,9 @@ def run(tier='quick', repo=None):
         'maps each UPUMP_* command to the matching upump_common_* function; upump_common_clean calls the callback of every blocker under the owner\'s '
         'refcount; dispatch brackets the callback; helper_input allocates at most one blocker per pump and frees all of them. Does not decide what '
         'libev does with a stopped watcher.')
-    prog = facts.load_program(['lib/upipe/upump_common.c', 'lib/upump-ev/upump_ev.c', 'lib/upipe-modules/upipe_queue_sink.c'], repo=repo)
+    from rules.c20 import list_units
+    mods = list_units(repo, ['lib/upipe-modules'])
+    prog = facts.load_program(['lib/upipe/upump_common.c', 'lib/upump-ev/upump_ev.c'] + [m for m in mods], repo=repo, tolerate=True)
     u = prog.units['lib/upipe/upump_common.c']
     rep.units = sorted(prog.units)
     rep.nfuncs = sum(len(x.funcs) for x in prog.units.values())
@@ -424,6 +426,40 @@ def run(tier='quick', repo=None):
     inloop = bool(cbs) and all(pr.never_after(ev, (lambda p: (lambda n: n is p[2]))(c), (lambda p: (lambda n: n is p[2]))(c)) for c in cbs)
     rep.add('R-pump-clean', 'upump_common_clean', HOLDS if inloop else VIOLATED, fn.loc,
             **({} if inloop else {'what': 'the blocker callback is not invoked from within the loop over the blockers (every outstanding blocker must be notified)'}))
+    # free: the pump is stopped through upump_stop (started cleared) before the blockers are notified by
+    # upump_common_clean - their call-backs release the blockers, and releasing the last blocker of a pump that
+    # still says `started` re-registers the watcher of a pump that is going back to the pool
+    nfree = 0
+    for uname, uu in sorted(prog.units.items()):
+        for f in sorted(uu.funcs.values(), key=lambda f: f.name):
+            if not f.blocks or f.macro:
+                continue
+            evf = pr.Events(f)
+            clean = pr.m_call('upump_common_clean')
+            if not evf.find(clean) or f.name == 'upump_common_clean':
+                continue
+            nfree += 1
+            stop = pr.m_call(r'upump_stop|upump_common_stop')
+            bad = pr.must_precede(evf, stop, clean)
+            rep.add('R-pump-clean', '%s:stopped-before-clean' % f.name, VIOLATED if bad else HOLDS, f.loc,
+                    **({'what': '%s reaches upump_common_clean without upump_stop(): `started` stays set while the blockers are notified, and the '
+                                'release of the last blocker starts the watcher of the pump being freed' % f.name} if bad else {}))
+            # and the callback of a notified blocker finds the automaton in "stopped": checked on the automaton
+    if nfree < 1:
+        raise facts.AnalysisBroken('no pump free function calling upump_common_clean found')
+    # flush / free of a pipe that holds input releases its blockers (clean_input: rule shared with C01 R-core)
+    from rules import c01
+    nci = 0
+    for uname, uu in sorted(prog.units.items()):
+        for f in sorted(uu.funcs.values(), key=lambda f: f.name):
+            if f.macro == 'UPIPE_HELPER_INPUT' and f.name.endswith('_clean_input'):
+                nci += 1
+                ok = c01.clean_input_ok(f)
+                rep.add('R-pump-blockers', '%s:releases-blockers' % f.name, HOLDS if ok else VIOLATED, f.loc,
+                        **({} if ok else {'what': 'clean_input (flush / free of a pipe that holds input) must reset NB_UREFS to 0 before unblock_input: '
+                                                  'unblock_input keeps the blockers while more than MAX_UREFS are counted, so the source pump stays suspended for ever'}))
+    if nci < 10:
+        raise facts.AnalysisBroken('only %d clean_input instantiations found' % nci)
     # helper_input blockers (checked on one instantiation per unit parsed)
     for uname, uu in sorted(prog.units.items()):
         for f in sorted(uu.funcs.values(), key=lambda f: f.name):
